@@ -37,6 +37,8 @@ type icPair struct {
 	dstChain string
 	srcKey   int // 0: KA 1: KB
 	blocked  bool
+	hub      bool // the destination service lives on another BitXHub (this node is the source hub)
+	hubSrc   bool // the source service lives on another BitXHub (this node is the destination hub)
 }
 
 var icPairs = map[string]*icPair{
@@ -48,6 +50,15 @@ var icPairs = map[string]*icPair{
 	// source service registered as unordered (only in worlds built by newICInstU): the
 	// destination is ordered, so requests and receipts of the pair are still index-checked
 	"p6": {name: "p6", from: fix.FullID(fix.ChainA, icSvcU), to: fix.FullID(fix.ChainB, fix.Svc2), srcChain: fix.ChainA, dstChain: fix.ChainB},
+	// local service -> service on the remote BitXHub "1357" (only in worlds built by newICInstHub);
+	// no timeout runs on the source hub, the destination hub reports by receipt or by a
+	// begin-failure / begin-rollback notice
+	"ph": {name: "ph", from: fix.FullID(fix.ChainA, fix.Svc1), to: fix.HubID("chainX", fix.SvcR), srcChain: fix.ChainA, dstChain: contracts.DEFAULT_UNION_PIER_ID, hub: true},
+	// the same with a source service registered as unordered
+	"pu": {name: "pu", from: fix.FullID(fix.ChainA, icSvcU), to: fix.HubID("chainX", fix.SvcR), srcChain: fix.ChainA, dstChain: contracts.DEFAULT_UNION_PIER_ID, hub: true},
+	// service on the remote BitXHub -> local service (this node is the destination hub): the
+	// request is signed by the remote hub's validators, the timeout runs here
+	"pr": {name: "pr", from: fix.HubID("chainX", fix.SvcR), to: fix.FullID(fix.ChainB, fix.Svc2), srcChain: contracts.DEFAULT_UNION_PIER_ID, dstChain: fix.ChainB, hubSrc: true},
 	"p3": {name: "p3", from: fix.FullID(fix.ChainB, fix.Svc2), to: fix.FullID(fix.ChainA, fix.Svc1), srcChain: fix.ChainB, dstChain: fix.ChainA, srcKey: 1},
 }
 
@@ -81,6 +92,8 @@ type icInst struct {
 	failed bool
 	// unordered: the world also has service A:sU, registered with ordered = false
 	unordered bool
+	// hubWorld: the world also has the remote BitXHub R (registered with its validators)
+	hubWorld bool
 }
 
 // icStep keeps what the oracles need about the most recent block.
@@ -119,6 +132,22 @@ func newICInstU(opt fix.Options) *icInst {
 	return in
 }
 
+// newICInstHub: the proof world (chains A, B, F, W and the remote BitXHub R).
+func newICInstHub(opt fix.Options) *icInst {
+	w, _ := fix.ProofWorld(opt)
+	// also an unordered service of chain A (source of pair "pu")
+	res := w.Must(w.Block(w.InvokeTx(fix.KA, constant.ServiceMgrContractAddr, "RegisterService",
+		pb.String(fix.ChainA), pb.String(icSvcU), pb.String("name-unordered"), pb.String("CallContract"),
+		pb.String("intro"), pb.Uint64(0), pb.String(""), pb.String("details"), pb.String("reason"))))
+	w.Approve(fix.ProposalID(res.Receipts[0]))
+	return &icInst{w: w, m: newICModel(), opt: opt, hubWorld: true}
+}
+
+var icHubPayload = func() []byte {
+	pd, _ := (&pb.Payload{Hash: []byte("h")}).Marshal()
+	return pd
+}()
+
 func icID(p *icPair, idx uint64) string { return fmt.Sprintf("%s-%s-%d", p.from, p.to, idx) }
 
 func (in *icInst) signer(p *icPair, receipt bool) int {
@@ -156,11 +185,20 @@ func (in *icInst) build(desc string, h uint64) (pb.Transaction, icExpect) {
 			T = math.MaxInt64
 		}
 		ib := &pb.IBTP{From: p.from, To: p.to, Index: idx, TimeoutHeight: T}
+		if p.hub {
+			ib.Payload = icHubPayload
+		}
 		k := fix.KA
 		if p.srcKey == 1 {
 			k = fix.KB
 		}
-		tx := fix.IBTPTx(k, w.N.Next(k), ib, fix.GoodProof)
+		reqProof := fix.GoodProof
+		if p.hubSrc {
+			ib.Payload = icHubPayload
+			k = fix.KR
+			reqProof = fix.HubProof(ib, pb.TransactionStatus_BEGIN, pb.TransactionStatus_BEGIN, []string{"hubval-1", "hubval-2"})
+		}
+		tx := fix.IBTPTx(k, w.N.Next(k), ib, reqProof)
 		e := icExpect{id: icID(p, idx), pair: p, isReq: true, oldSt: -1}
 		switch {
 		case idx != m.nextReq[p.name]+1:
@@ -190,7 +228,18 @@ func (in *icInst) build(desc string, h uint64) (pb.Transaction, icExpect) {
 		if p.srcKey == 1 {
 			k = fix.KA
 		}
-		tx := fix.IBTPTx(k, w.N.Next(k), ib, fix.GoodProof)
+		proof := fix.GoodProof
+		if p.hubSrc {
+			ib.Payload = icHubPayload
+		}
+		if p.hub {
+			// the receipt comes from the remote hub: signed by two of its four validators
+			ib.Payload = icHubPayload
+			k = fix.KR
+			stt := map[string]pb.TransactionStatus{"s": pb.TransactionStatus_SUCCESS, "f": pb.TransactionStatus_FAILURE, "r": pb.TransactionStatus_ROLLBACK}[f[3]]
+			proof = fix.HubProof(ib, stt, stt, []string{"hubval-1", "hubval-2"})
+		}
+		tx := fix.IBTPTx(k, w.N.Next(k), ib, proof)
 		e := icExpect{id: icID(p, idx), pair: p, verdict: "reject", oldSt: -1}
 		rec, known := m.tx[e.id]
 		if known && idx == m.nextRcpt[p.name]+1 {
@@ -208,6 +257,46 @@ func (in *icInst) build(desc string, h uint64) (pb.Transaction, icExpect) {
 			}
 			if ns >= 0 {
 				e.verdict, e.newSt = "accept", ns
+			}
+		}
+		return tx, e
+	case "nt": // nt:<pair>:<idxspec>:<bf|br>: the destination hub's begin-failure / begin-rollback notice
+		p := icPairs[f[1]]
+		var idx uint64
+		switch f[2] {
+		case "n":
+			idx = m.nextRcpt[p.name] + 1
+		case "d":
+			idx = m.nextRcpt[p.name]
+		case "f":
+			idx = m.nextRcpt[p.name] + 2
+		case "u":
+			idx = m.nextReq[p.name] + 1
+		}
+		stt := map[string]pb.TransactionStatus{"bf": pb.TransactionStatus_BEGIN_FAILURE, "br": pb.TransactionStatus_BEGIN_ROLLBACK}[f[3]]
+		extra, _ := (&pb.BxhProof{TxStatus: stt}).Marshal()
+		ib := &pb.IBTP{From: p.from, To: p.to, Index: idx, Type: pb.IBTP_INTERCHAIN, Payload: icHubPayload, Extra: extra}
+		tx := fix.IBTPTx(fix.KA, w.N.Next(fix.KA), ib, fix.GoodProof)
+		e := icExpect{id: icID(p, idx), pair: p, verdict: "reject", oldSt: -1}
+		if _, known := m.tx[e.id]; !known {
+			// no request with this id was accepted: the IBTP is not a notice of anything, it IS
+			// the request with that index (a notice is a request IBTP carrying the destination
+			// hub's verdict in its Extra field)
+			e.isReq = true
+			if idx == m.nextReq[p.name]+1 {
+				e.verdict, e.newSt = "accept", stBegin
+			}
+			return tx, e
+		}
+		if rec, known := m.tx[e.id]; known && idx == m.nextRcpt[p.name]+1 {
+			e.oldSt = rec.status
+			switch {
+			case rec.status == stBegin && f[3] == "bf":
+				e.verdict, e.newSt = "accept", stFailure
+			case rec.status == stBegin && f[3] == "br":
+				e.verdict, e.newSt = "accept", stRollback
+			case rec.status == stBeginF && f[3] == "bf":
+				e.verdict, e.newSt = "accept", stFailure
 			}
 		}
 		return tx, e
@@ -254,7 +343,7 @@ func (in *icInst) applyBlock(spec string) {
 					m.nextReq[e.pair.name]++
 					ib := tx.GetIBTP()
 					rec := &icTx{status: e.newSt, H: h, hash: tx.GetHash().String()}
-					if e.verdict == "accept" && ib.TimeoutHeight > 0 && uint64(ib.TimeoutHeight) < math.MaxUint64-h {
+					if e.verdict == "accept" && !e.pair.hub && ib.TimeoutHeight > 0 && uint64(ib.TimeoutHeight) < math.MaxUint64-h {
 						rec.E = h + uint64(ib.TimeoutHeight)
 					}
 					m.tx[e.id] = rec
@@ -326,7 +415,7 @@ func (in *icInst) check(c *mc.Ctx, o icOracle, prop string, path []string) {
 	if st == nil {
 		return
 	}
-	rep := map[string]interface{}{"engine": strings.ToLower(prop) + ".icmc", "ops": path, "audit": in.opt.Audit, "unordered": in.unordered}
+	rep := map[string]interface{}{"engine": strings.ToLower(prop) + ".icmc", "ops": path, "audit": in.opt.Audit, "unordered": in.unordered, "hub": in.hubWorld}
 	bad := func(sig, format string, a ...interface{}) {
 		c.Report(prop+"|"+sig, fmt.Sprintf(format, a...)+fmt.Sprintf(" [block %d = %v] after %s", st.height, st.descs, joinOps(path)), rep)
 	}
@@ -578,6 +667,9 @@ func runIC(c *mc.Ctx, prop string, o icOracle, opt fix.Options, name string, alp
 			if strings.HasSuffix(name, "-unordered-source") {
 				return newICInstU(opt)
 			}
+			if strings.HasSuffix(name, "-inter-hub") {
+				return newICInstHub(opt)
+			}
 			return newICInst(opt)
 		},
 		Enabled: func(x mc.Instance, d int) []string { return alphabet },
@@ -600,7 +692,7 @@ func runIC(c *mc.Ctx, prop string, o icOracle, opt fix.Options, name string, alp
 	if forkOK {
 		b.Fork = func(x mc.Instance) mc.Instance {
 			in := x.(*icInst)
-			return &icInst{w: in.w.Fork(), m: in.m.clone(), opt: in.opt, unordered: in.unordered}
+			return &icInst{w: in.w.Fork(), m: in.m.clone(), opt: in.opt, unordered: in.unordered, hubWorld: in.hubWorld}
 		}
 	}
 	b.Run()
@@ -704,6 +796,10 @@ func icReplayer(prop string, o icOracle) func(c *mc.Ctx, r map[string]interface{
 		if u, _ := r["unordered"].(bool); u {
 			in.w.R.Close()
 			in = newICInstU(fix.Options{Audit: audit})
+		}
+		if hb, _ := r["hub"].(bool); hb {
+			in.w.R.Close()
+			in = newICInstHub(fix.Options{Audit: audit})
 		}
 		path := strList(r["ops"])
 		for i, op := range path {
